@@ -318,11 +318,27 @@ theorem regInv_init (l r N : Nat) (A0 B0 : List Nat) (hA : A0.length = N) (hB : 
     RegInv l r N A0 B0 0 (BipG.init l r) A0 B0 :=
   ⟨BipG.inv_init_gb l r, rfl, rfl, hA, hB, fun _ => rfl, fun _ => rfl, by simp [BipG.init]⟩
 
+/-- the arrays `A = list(L)*d`, `B = list(R)*(l*d//r)` both have `l*d` cells -/
+theorem regular_arrays (l r d : Int) (hl0 : 0 ≤ l) (hr0 : 0 < r) (hd0 : 0 ≤ d) (hdiv : (l * d) % r = 0) :
+    (repeatRange l.toNat d.toNat).length = (l * d).toNat ∧
+    (repeatRange r.toNat (l * d / r).toNat).length = (l * d).toNat := by
+  have hq0 : 0 ≤ l * d / r := Int.ediv_nonneg (Int.mul_nonneg hl0 hd0) (by omega)
+  constructor
+  · rw [length_repeatRange]
+    have : ((d.toNat * l.toNat : Nat) : Int) = l * d := by
+      rw [Int.natCast_mul, Int.toNat_of_nonneg hl0, Int.toNat_of_nonneg hd0, Int.mul_comm]
+    omega
+  · rw [length_repeatRange]
+    have h1 : (((l * d / r).toNat * r.toNat : Nat) : Int) = l * d / r * r := by
+      rw [Int.natCast_mul, Int.toNat_of_nonneg hq0, Int.toNat_of_nonneg (by omega)]
+    have h2 : l * d / r * r = l * d := Int.ediv_mul_cancel (Int.dvd_of_emod_eq_zero hdiv)
+    omega
+
 /-- `bipartite_random_regular(l, r, d)`, whenever it returns and whatever was drawn (any number
 of restarts): every left vertex has degree `d`, every right vertex has degree `l*d/r` -/
 theorem randomRegular_ok (l r d : Int) (fuel : Nat) (ds rest : List Draw) (G : BipG)
     (h : randomRegular l r d fuel ds = .ok G rest) :
-    0 ≤ l ∧ 0 < r ∧ 0 ≤ d ∧ (l * d) % r = 0 ∧ G.InvGB ∧ G.l = l.toNat ∧ G.r = r.toNat ∧
+    0 ≤ l ∧ 0 ≤ r ∧ 0 ≤ d ∧ d ≤ r ∧ (0 < r → (l * d) % r = 0) ∧ G.InvGB ∧ G.l = l.toNat ∧ G.r = r.toNat ∧
     (∀ u, 1 ≤ u → u ≤ G.l → G.leftDeg u = d.toNat) ∧
     (∀ v, 1 ≤ v → v ≤ G.r → G.rightDeg v = (l * d / r).toNat) := by
   induction fuel generalizing ds with
@@ -334,88 +350,92 @@ theorem randomRegular_ok (l r d : Int) (fuel : Nat) (ds rest : List Draw) (G : B
     · rename_i hneg
       split at h
       · simp at h
-      · rename_i hr0
+      · rename_i hdr
         split at h
         · simp at h
         · rename_i hdiv
-          have hdiv' : (l * d) % r = 0 := by simpa using hdiv
-          rw [bind_ok] at h
-          obtain ⟨o, mid, hloop, h⟩ := h
-          cases o with
-          | none => exact ih mid h
-          | some G' =>
+          split at h
+          · -- r = 0: the empty graph on (l, 0)
+            rename_i hr0
             simp only [pure_ok] at h
             obtain ⟨rfl, _⟩ := h
+            have hd : d = 0 := by omega
+            refine ⟨by omega, by omega, by omega, by omega, by omega, BipG.inv_init_gb _ _, rfl, rfl, ?_, ?_⟩
+            · intro u _ _
+              have := (BipG.inv_init_gb l.toNat r.toNat).ldeg u
+              rw [this, hd]; simp [BipG.init]
+            · intro v h1 h2
+              simp only [BipG.init] at h2; omega
+          · rename_i hr0
             have hl0 : 0 ≤ l := by omega
             have hr0' : 0 < r := by omega
             have hd0 : 0 ≤ d := by omega
-            have hq0 : 0 ≤ l * d / r := Int.ediv_nonneg (Int.mul_nonneg hl0 hd0) (by omega)
-            have hNA : (repeatRange l.toNat d.toNat).length = (l * d).toNat := by
-              rw [length_repeatRange]
-              have : ((d.toNat * l.toNat : Nat) : Int) = l * d := by
-                rw [Int.natCast_mul, Int.toNat_of_nonneg hl0, Int.toNat_of_nonneg hd0, Int.mul_comm]
-              omega
-            have hNB : (repeatRange r.toNat (l * d / r).toNat).length = (l * d).toNat := by
-              rw [length_repeatRange]
-              have h1 : (((l * d / r).toNat * r.toNat : Nat) : Int) = l * d / r * r := by
-                rw [Int.natCast_mul, Int.toNat_of_nonneg hq0, Int.toNat_of_nonneg (by omega)]
-              have h2 : l * d / r * r = l * d := Int.ediv_mul_cancel (Int.dvd_of_emod_eq_zero hdiv')
-              omega
-            obtain ⟨A', B', hfin⟩ := regularLoop_ok _ l.toNat r.toNat _ _ _
-              (fun x hx => mem_repeatRange _ _ _ hx) (fun x hx => mem_repeatRange _ _ _ hx)
-              _ 0 _ _ _ ds mid _ (regInv_init _ _ _ _ _ hNA hNB) (by omega) hloop
-            obtain ⟨hdl, hdr⟩ := hfin.degrees
-            refine ⟨hl0, hr0', hd0, hdiv', hfin.inv, hfin.hl, hfin.hr, ?_, ?_⟩
-            · intro u h1 h2
-              rw [hdl u, count_repeatRange, if_pos ⟨h1, by rw [hfin.hl] at h2; exact h2⟩]
-            · intro v h1 h2
-              rw [hdr v, count_repeatRange, if_pos ⟨h1, by rw [hfin.hr] at h2; exact h2⟩]
+            have hdiv' : (l * d) % r = 0 := by
+              by_cases hh : (l * d) % r = 0
+              · exact hh
+              · exact absurd ⟨hr0', hh⟩ hdiv
+            obtain ⟨hNA, hNB⟩ := regular_arrays l r d hl0 hr0' hd0 hdiv'
+            rw [bind_ok] at h
+            obtain ⟨o, mid, hloop, h⟩ := h
+            cases o with
+            | none => exact ih mid h
+            | some G' =>
+              simp only [pure_ok] at h
+              obtain ⟨rfl, _⟩ := h
+              obtain ⟨A', B', hfin⟩ := regularLoop_ok _ l.toNat r.toNat _ _ _
+                (fun x hx => mem_repeatRange _ _ _ hx) (fun x hx => mem_repeatRange _ _ _ hx)
+                _ 0 _ _ _ ds mid _ (regInv_init _ _ _ _ _ hNA hNB) (by omega) hloop
+              obtain ⟨hdl, hdr'⟩ := hfin.degrees
+              refine ⟨hl0, by omega, hd0, by omega, fun _ => hdiv', hfin.inv, hfin.hl, hfin.hr, ?_, ?_⟩
+              · intro u h1 h2
+                rw [hdl u, count_repeatRange, if_pos ⟨h1, by rw [hfin.hl] at h2; exact h2⟩]
+              · intro v h1 h2
+                rw [hdr' v, count_repeatRange, if_pos ⟨h1, by rw [hfin.hr] at h2; exact h2⟩]
 
 /-- the exceptions of `bipartite_random_regular`: the documented `ValueError` (negative argument,
-or `r` does not divide `l*d`), `ZeroDivisionError` for `r = 0`, and `RecursionError` when the
-restart budget is used up.  Nothing is ever raised from inside an attempt. -/
+`d > r`, or `r > 0` does not divide `l*d`), and `RecursionError` — only for arguments that pass all
+these tests with `r > 0`, when every attempt within the restart budget ended in a dead end (or the
+budget was empty to begin with).  Nothing is ever raised from inside an attempt; `r = 0` returns. -/
 theorem randomRegular_exc (l r d : Int) (fuel : Nat) (ds : List Draw) (e : Err)
     (h : randomRegular l r d fuel ds = .exc e) :
-    (e = .valueError ∧ (l < 0 ∨ r < 0 ∨ d < 0 ∨ (r ≠ 0 ∧ (l * d) % r ≠ 0))) ∨
-    (e = .zeroDivision ∧ r = 0) ∨ e = .recursion := by
+    (e = .valueError ∧ (l < 0 ∨ r < 0 ∨ d < 0 ∨ d > r ∨ (0 < r ∧ (l * d) % r ≠ 0))) ∨
+    (e = .recursion ∧ (fuel = 0 ∨ (0 ≤ l ∧ 0 < r ∧ 0 ≤ d ∧ d ≤ r ∧ (l * d) % r = 0))) := by
   induction fuel generalizing ds with
-  | zero => simp [randomRegular] at h; exact Or.inr (Or.inr h.symm)
+  | zero => simp [randomRegular] at h; exact Or.inr ⟨h.symm, Or.inl rfl⟩
   | succ fuel ih =>
     simp only [randomRegular] at h
     split at h
     · rename_i hneg; simp at h; exact Or.inl ⟨h.symm, by omega⟩
     · rename_i hneg
       split at h
-      · rename_i hr0; simp at h; exact Or.inr (Or.inl ⟨h.symm, hr0⟩)
-      · rename_i hr0
+      · rename_i hdr; simp at h; exact Or.inl ⟨h.symm, by omega⟩
+      · rename_i hdr
         split at h
-        · rename_i hdiv; simp at h; exact Or.inl ⟨h.symm, Or.inr (Or.inr (Or.inr ⟨hr0, hdiv⟩))⟩
+        · rename_i hdiv; simp at h; exact Or.inl ⟨h.symm, Or.inr (Or.inr (Or.inr (Or.inr hdiv)))⟩
         · rename_i hdiv
-          have hdiv' : (l * d) % r = 0 := by simpa using hdiv
-          have hl0 : 0 ≤ l := by omega
-          have hr0' : 0 < r := by omega
-          have hd0 : 0 ≤ d := by omega
-          have hq0 : 0 ≤ l * d / r := Int.ediv_nonneg (Int.mul_nonneg hl0 hd0) (by omega)
-          have hNA : (repeatRange l.toNat d.toNat).length = (l * d).toNat := by
-            rw [length_repeatRange]
-            have : ((d.toNat * l.toNat : Nat) : Int) = l * d := by
-              rw [Int.natCast_mul, Int.toNat_of_nonneg hl0, Int.toNat_of_nonneg hd0, Int.mul_comm]
-            omega
-          have hNB : (repeatRange r.toNat (l * d / r).toNat).length = (l * d).toNat := by
-            rw [length_repeatRange]
-            have h1 : (((l * d / r).toNat * r.toNat : Nat) : Int) = l * d / r * r := by
-              rw [Int.natCast_mul, Int.toNat_of_nonneg hq0, Int.toNat_of_nonneg (by omega)]
-            have h2 : l * d / r * r = l * d := Int.ediv_mul_cancel (Int.dvd_of_emod_eq_zero hdiv')
-            omega
-          rw [bind_exc] at h
-          rcases h with h | ⟨o, mid, _, h⟩
-          · exfalso
-            exact regularLoop_exc _ l.toNat r.toNat _ _ _
-              (fun x hx => mem_repeatRange _ _ _ hx) (fun x hx => mem_repeatRange _ _ _ hx)
-              _ 0 _ _ _ ds e (regInv_init _ _ _ _ _ hNA hNB) (by omega) h
-          · cases o with
-            | none => exact ih mid h
-            | some G' => exact absurd h (pure_ne_exc _ _ _)
+          split at h
+          · exact absurd h (pure_ne_exc _ _ _)
+          · rename_i hr0
+            have hl0 : 0 ≤ l := by omega
+            have hr0' : 0 < r := by omega
+            have hd0 : 0 ≤ d := by omega
+            have hdiv' : (l * d) % r = 0 := by
+              by_cases hh : (l * d) % r = 0
+              · exact hh
+              · exact absurd ⟨hr0', hh⟩ hdiv
+            obtain ⟨hNA, hNB⟩ := regular_arrays l r d hl0 hr0' hd0 hdiv'
+            rw [bind_exc] at h
+            rcases h with h | ⟨o, mid, _, h⟩
+            · exfalso
+              exact regularLoop_exc _ l.toNat r.toNat _ _ _
+                (fun x hx => mem_repeatRange _ _ _ hx) (fun x hx => mem_repeatRange _ _ _ hx)
+                _ 0 _ _ _ ds e (regInv_init _ _ _ _ _ hNA hNB) (by omega) h
+            · cases o with
+              | none =>
+                rcases ih mid h with ⟨_, hbad⟩ | ⟨he, _⟩
+                · exfalso; omega
+                · exact Or.inr ⟨he, Or.inr ⟨hl0, hr0', hd0, by omega, hdiv'⟩⟩
+              | some G' => exact absurd h (pure_ne_exc _ _ _)
 
 theorem randomRegular_noForeign (l r d : Int) (fuel : Nat) : NoForeign (randomRegular l r d fuel) := by
   induction fuel with
@@ -423,7 +443,8 @@ theorem randomRegular_noForeign (l r d : Int) (fuel : Nat) : NoForeign (randomRe
   | succ fuel ih =>
     simp only [randomRegular]
     refine NoForeign.ite (NoForeign.raise _) (NoForeign.ite (NoForeign.raise _)
-      (NoForeign.ite (NoForeign.raise _) (NoForeign.bind (regularLoop_noForeign _ _ _ _ _ _ _) (fun o => ?_))))
+      (NoForeign.ite (NoForeign.raise _) (NoForeign.ite (NoForeign.pure _)
+        (NoForeign.bind (regularLoop_noForeign _ _ _ _ _ _ _) (fun o => ?_)))))
     cases o with
     | none => exact ih
     | some G => exact NoForeign.pure _
